@@ -148,7 +148,7 @@ extern int mpt_data_convert_uint8(const uint8_t *from, MPT_TYPE(type) type, void
 	#ifdef _MPT_FLOAT_EXTENDED_H
 		case 'e':
 			if (dest) *((long double *) dest) = val;
-			return sizeof(double);
+			return sizeof(long double);
 	#endif
 		case MPT_type_toVector('y'):
 			if (dest) {
@@ -219,7 +219,7 @@ extern int mpt_data_convert_int16(const int16_t *from, MPT_TYPE(type) type, void
 			return sizeof(int64_t);
 		case 'f':
 			if (dest) *((float *) dest) = val;
-			return sizeof(int64_t);
+			return sizeof(float);
 		case 'd':
 			if (dest) *((double *) dest) = val;
 			return sizeof(double);
